@@ -25,6 +25,8 @@ PANIC_CALLS = [
     (re.compile(r"^<(i|u)(8|16|32|64|128|size) as core::ops::bit::(Shl|Shr)(<.*>)?>::\w+$"), "arith-call"),
     (re.compile(r"^<(i|u)(8|16|32|64|128|size) as core::iter::traits::accum::(Sum|Product)"), "arith-call"),
     (re.compile(r"^core::cell::RefCell::<T>::(borrow|borrow_mut)$"), "refcell"),
+    # `x.clamp(min, max)` asserts `min <= max` (and, for floats, that neither is NaN)
+    (re.compile(r"^(core::cmp::Ord::clamp|core::cmp::impls::<impl core::cmp::Ord for \w+>::clamp|core::f(32|64)::<impl f(32|64)>::clamp)$"), "clamp-call"),
 ]
 
 
@@ -90,6 +92,10 @@ def check_zone(bodies, confirmed=None, param_ranges=None, only_kinds=None, call_
                     ok, why = True, r
             if not ok and k == "div-call" and st is not None:
                 r = _div_call(b, t, iv, st)
+                if r:
+                    ok, why = True, r
+            if not ok and k == "clamp-call" and st is not None:
+                r = _clamp_call(b, t, iv, st)
                 if r:
                     ok, why = True, r
             if not ok and k == "arith-call" and st is not None:
@@ -170,6 +176,32 @@ def _div_call(b, t, iv, st):
         return "argument positive and base >= 2"
     if len(args) == 2 and args[1] is not None and (args[1][0] > 0 or args[1][1] < 0) and name not in ("ilog", "ilog2", "ilog10", "isqrt"):
         return f"divisor in [{args[1][0]}, {args[1][1]}] excludes 0"
+    return None
+
+
+def _clamp_call(b, t, iv, st):
+    """clamp(x, min, max) panics unless min <= max"""
+    if len(t.args) != 3:
+        return None
+    lo, hi = t.args[1], t.args[2]
+    a, c = iv.rng(st, lo), iv.rng(st, hi)
+    if a is not None and c is not None and a[1] <= c[0]:
+        return f"min <= {a[1]} <= {c[0]} <= max"
+    if a is not None and c is not None and iv.le(st, lo, hi):
+        return "min <= max on this path"
+    # two float literals
+    def fval(o):
+        if o[0] == "k" and o[1] in ("f32", "f64") and len(o) > 3 and isinstance(o[3], str):
+            m = re.match(r"^(-?[0-9.eE+-]+)f(32|64)$", o[3])
+            if m:
+                try:
+                    return float(m.group(1))
+                except ValueError:
+                    return None
+        return None
+    fl, fh = fval(lo), fval(hi)
+    if fl is not None and fh is not None and fl <= fh:
+        return f"literal bounds {fl} <= {fh}"
     return None
 
 
